@@ -11,7 +11,7 @@ import itertools
 from ..core import Family, Result, viol, HarnessError
 from .. import chooser
 
-from mitxgraders import (FormulaGrader, NumericalGrader, MatrixGrader, SumGrader, ListGrader, DependentSampler,
+from mitxgraders import (FormulaGrader, NumericalGrader, MatrixGrader, SumGrader, ListGrader, DependentSampler, DiscreteSet,
                          RealInterval)
 from mitxgraders.exceptions import InvalidInput, StudentFacingError, MITxError
 from mitxgraders.helpers.calc.exceptions import UndefinedVariable, UndefinedFunction, CalcError
@@ -302,6 +302,18 @@ def build_names(tier):
                 ('instructor_vars=[z], z a user constant',
                  lambda cls=cls, credit=credit: cls(answers={'expect': '2*cos(x)+x+z-3', 'grade_decimal': credit},
                                                     variables=['x'], user_constants={'z': 3}, instructor_vars=['z']), ['z'], 'instructor-var'),
+                # instructor-only names whose VALUE is zero (falsy): hidden all the same
+                ('instructor_vars=[z], z a user constant equal to 0',
+                 lambda cls=cls, credit=credit: cls(answers={'expect': '2*cos(x)+x+z', 'grade_decimal': credit},
+                                                    variables=['x'], user_constants={'z': 0}, instructor_vars=['z']), ['z'], 'instructor-var'),
+                ('instructor_vars=[z], z sampled from {0}',
+                 lambda cls=cls, credit=credit: cls(answers={'expect': '2*cos(x)+x+z', 'grade_decimal': credit},
+                                                    variables=['x', 'z'], sample_from={'z': DiscreteSet((0,))},
+                                                    instructor_vars=['z']), ['z'], 'instructor-var'),
+                ('instructor_vars=[z], z sampled from {0.0, 2} (first draw 0.0)',
+                 lambda cls=cls, credit=credit: cls(answers={'expect': '2*cos(x)+x+z-z', 'grade_decimal': credit},
+                                                    variables=['x', 'z'], sample_from={'z': DiscreteSet((0.0, 2))},
+                                                    instructor_vars=['z']), ['z'], 'instructor-var'),
                 ('instructor_vars=[pi,z]',
                  lambda cls=cls, credit=credit: cls(answers={'expect': '2*cos(x)+x+0*pi', 'grade_decimal': credit},
                                                     variables=['x', 'z'], instructor_vars=['pi', 'z']), ['pi', 'z'], 'instructor-var'),
